@@ -9,7 +9,7 @@ of the action stream is measured too (reported; it alone does not raise an alarm
 independent statements inside the critical section is not flagged)."""
 from concurrent.futures import ThreadPoolExecutor
 
-from .common import ints
+from .common import evals
 
 PROP_FILE = "Properties/C15.v"
 RUN_FILES = ["Model/C15_run.v"]
@@ -72,7 +72,9 @@ def gen_traces(ctx):
 def gen_explore(ctx):
     """exhaustive interleavings: (conf, nw, macro, cap)"""
     out = []
-    chunks = [None, 1, 2]
+    combos = [("guided", None), ("dynamic", 1), ("static", None), ("guided", 2), ("dynamic", 2), ("static", 2)]
+    if ctx.thorough:
+        combos += [("guided", 1), ("dynamic", None), ("static", 1), ("static", 3), ("dynamic", 0)]
     # caps: on the current tree every scope below except (3 workers, n >= 4) is enumerated completely
     # (largest: 1962 / 2556 executions); the caps only bound the work when a changed Scheduler has more interleavings
     if ctx.thorough:
@@ -84,10 +86,10 @@ def gen_explore(ctx):
     for macro, scopes in ((False, step_scopes), (True, macro_scopes)):
         for nw, ns, cap in scopes:
             for n in ns:
-                for kind in KINDS:
-                    for ch in chunks:
-                        out.append({"conf": {"n": n, "nprocs": nw, "chunk": ch, "kind": kind}, "nw": nw, "macro": macro, "cap": cap,
-                                    "sampled": nw == 3 and n >= 4})
+                large = n + nw >= (6 if macro else 5)      # > 1000 interleavings each: the six basic combinations only
+                for kind, ch in (combos[:6] if large else combos):
+                    out.append({"conf": {"n": n, "nprocs": nw, "chunk": ch, "kind": kind}, "nw": nw, "macro": macro, "cap": cap,
+                                "sampled": nw == 3 and n >= 4})
     return out
 
 
@@ -184,15 +186,11 @@ def coq_obs(conf, nw, res):
     return "(%s, %d, (%d), %s, %s, ((%d),(%d)))" % (cfg, nw, res["chunk0"], ys, ws, res["final"][0], res["final"][1])
 
 
-def coq_strict(conf, nw, res):
+def coq_case(conf, nw, res):
     sched = "[" + ";".join(str(w) for w in res["turns"]) + "]"
     ev = "[" + ";".join("(%d,(%d))" % (c, v) for _, c, v in res["events"]) + "]"
-    return "(%s, %s, %s)" % (coq_obs(conf, nw, res), sched, ev)
-
-
-def coq_macro(conf, nw, res):
     ms = "[" + ";".join("(%d,%d)" % (w, 0 if c == 7 else 1) for w, c, _ in res["events"] if c in (7, 9)) + "]"
-    return "(%s, %s)" % (coq_obs(conf, nw, res), ms)
+    return "(%s, %s, %s, %s)" % (coq_obs(conf, nw, res), sched, ev, ms)
 
 
 def run_driver(ctx, traces, explores):
@@ -268,7 +266,7 @@ def run(ctx):
     if not complete:
         ctx.notes.append("some exhaustive scopes hit their cap: the Scheduler under test has more interleavings than the modelled one")
 
-    strict_cases, macro_cases, disc_bad = [], [], []
+    cases, disc_bad = [], []
     fails = Sorted(ctx)
     for conf, nw, res, cls in items:
         ctx.count(cls)
@@ -288,8 +286,7 @@ def run(ctx):
         d = lock_discipline(res["events"])
         if d:
             disc_bad.append((conf, nw, d))
-        strict_cases.append((coq_strict(conf, nw, res), len(res["turns"])))
-        macro_cases.append((coq_macro(conf, nw, res), len(res["turns"])))
+        cases.append((coq_case(conf, nw, res), len(res["turns"])))
         ctx.traces += 1
     fails.flush()
     if disc_bad:
@@ -298,38 +295,35 @@ def run(ctx):
                            "assumes, e.g. Scheduler(%s), %d workers: %s" % (len(disc_bad), len(items), conf, nw, d)))
 
     # ---- replay in the model
-    def shards(cases, name, chk, ty):
-        files, cur, load = [], [], 0
-        for text, size in cases:
-            if cur and (len(cur) >= 400 or load + size > 30000):
-                files.append(cur)
-                cur, load = [], 0
-            cur.append(text)
-            load += size
-        if cur:
+    import re
+    files, cur, load = [], [], 0
+    for text, size in cases:
+        if cur and (len(cur) >= 400 or load + size > 30000):
             files.append(cur)
-        return [("%s_%03d" % (name, i), HDR + "Definition cases : list (%s) := [%s].\nEval vm_compute in (bad %s cases).\n" % (ty, ";\n".join(f), chk), f)
-                for i, f in enumerate(files)]
-    texts = shards(macro_cases, "c15_macro", "chk_macro", "obs * list (Z * Z)") + shards(strict_cases, "c15_strict", "chk_strict", "obs * list Z * list (Z * Z)")
+            cur, load = [], 0
+        cur.append(text)
+        load += size
+    if cur:
+        files.append(cur)
+    texts = [("c15_replay_%03d" % i, HDR + "Definition cases : list tcase := [%s].\nEval vm_compute in (bad chk_macro cases).\n"
+              "Eval vm_compute in (bad chk_strict cases).\n" % ";\n".join(f), f) for i, f in enumerate(files)]
     res = ctx.coq_eval_many([(n_, t) for n_, t, _ in texts], timeout=1200)
     strict_bad = strict_total = macro_bad = macro_total = 0
     macro_eg = None
     evalfail = {}
     for name, _, lines in texts:
         out, ok = res[name]
-        what = "critical_section" if name.startswith("c15_macro") else "action_stream"
-        if not ok:
-            evalfail.setdefault(what, out[-300:])
+        ev = evals(out) if ok else []
+        if not ok or len(ev) != 2:
+            evalfail.setdefault("critical_section", out[-300:])
             continue
-        bad = ints(out)
-        if what == "critical_section":
-            macro_total += len(lines)
-            macro_bad += len(bad)
-            if bad and macro_eg is None:
-                macro_eg = min((lines[i] for i in bad), key=len)
-        else:
-            strict_total += len(lines)
-            strict_bad += len(bad)
+        bad_macro, bad_strict = ([int(x) for x in re.findall(r"-?\d+", re.sub(r"%[a-zA-Z]+", "", e))] for e in ev)
+        macro_total += len(lines)
+        macro_bad += len(bad_macro)
+        if bad_macro and macro_eg is None:
+            macro_eg = min((lines[i] for i in bad_macro), key=len)
+        strict_total += len(lines)
+        strict_bad += len(bad_strict)
     for what, detail in evalfail.items():
         ctx.broken.append(("correspondence:" + what, "model evaluation failed: " + detail))
     if macro_bad:
